@@ -16,6 +16,13 @@ CHECKS = {
             "Bounds d<=4, lmin<=2, lmax-lmin<=3, depth per configuration (see evidence.bounds_completed). Reference model "
             "mc/refmodels/indexset.py is trusted.",
             "explicit-state BFS over real transition function, reference-model lock-step"),
+    "C02": ("DESIGN.md 2/C02",
+            "Complete lattice d x (1<=lmin<=lmax) x box x boundary of StandardCombi+TrapezoidalGrid; per configuration ALL nodal unit "
+            "functions (reproduction at every sparse-grid point, point-wise and via interpolate_grid) and ALL hierarchical hats of the "
+            "sparse-grid space (exact integral, exact off-grid interpolation, combined quadrature rule) are decided, plus point-set, "
+            "coefficient-sum and point-count equalities against a reference sparse grid.",
+            "d<=3 (thorough 4), lmax<=5/4/3; float-exact boxes; tolerance 1e-12.",
+            "exhaustive configuration lattice, basis-function oracle (linearity)"),
     "C03": ("DESIGN.md 2/C03",
             "Explicit-state BFS over refinement-decision histories of the real dimension-wise strategy (scripted ErrorCalculator, "
             "real adaptive loop/refine): every state reachable by <=D steps with <=s intervals chosen per step, for all coarsening "
@@ -49,6 +56,30 @@ CHECKS = {
             "reproduction of unit functions checked in every state.",
             "Bounds d<=3, D<=2..3, s<=2, domain [0,1]^d.",
             "explicit-state BFS over decision histories replayed on the real objects"),
+    "C08": ("DESIGN.md 2/C08",
+            "Complete lattice grid family (10) x d(1,2) x level vector x dyadic sub-box (touching left/right/both/no end) of two domains; "
+            "announced point numbers, containment, weight sums and every tensor monomial up to the nominal degree; trapezoid "
+            "boundary-off contract against boundary-on minus global boundary points.",
+            "levels <=4 (1D), <=2..4 (2D); nominal degrees as in the statement; known finding: level 0 one-sided boxes with boundary off.",
+            "exhaustive input lattice, closed-form oracle"),
+    "C09": ("DESIGN.md 2/C09",
+            "Every refinement tree with leaves at depth<=4 and every Catalan tree with <=6 (thorough 8) inner points, dyadic and 1/3 "
+            "splits, two intervals, plus all 676 pairs of depth-<=3 trees in 2D; trapezoid weights compared with exact rational "
+            "integrals of the piecewise-linear nodal functions, hierarchical/high-order rules with exact monomial moments.",
+            "trees <= 17 points; 'enough points' read as a complete dyadic level; tree enumerator validated against the real refine().",
+            "exhaustive tree enumeration, exact reference weights"),
+    "C10": ("DESIGN.md 2/C10",
+            "Every tree of the C09 families x {Lagrange 1,2,3,5; B-spline 1,3,5} x boundary on/off (global grids, 1D and 2D pairs) and the "
+            "local level/sub-box lattice: the identity is hierarchised and interpolated, every basis function is checked for the "
+            "Kronecker property, derivative and integral.",
+            "local grids only with boundary points (they cannot be constructed without); known finding: Lagrange p=5 polynomial degree.",
+            "exhaustive tree/lattice enumeration, identity-matrix oracle"),
+    "C11": ("DESIGN.md 2/C11",
+            "Every dyadic tree (depth<=4, Catalan <=6/8) on three intervals x all 24 grouping/slice/container/balancing variants, all "
+            "balanced trees for the balanced grid, all ordered pairs of small trees through the cached GlobalRombergGrid, all operation "
+            "sequences of length<=3 on the GridBinaryTree singleton.",
+            "known finding: SIMPSON_ROMBERG containers with >=2 slices (weights do not sum to the length).",
+            "exhaustive tree enumeration + operation sequences on the singleton, moment oracle"),
     "C13": ("DESIGN.md 2/C13",
             "Exhaustive lattice of limit configurations (tol x min_evaluations x max_evaluations built from the point counts of an "
             "unlimited baseline, every boundary case) x strategy x integrand x norm, each a complete run of the real adaptive loop "
